@@ -79,7 +79,7 @@ def wide_enough(a, b, n):
 
 def gen_mk(ctx):
     rng = ctx.rng
-    N = 20000 if ctx.tier == 'thorough' else 2400
+    N = 12000 if ctx.tier == 'thorough' else 2400
     cases = []
     for k in range(N):
         a, b = rand_interval(rng) if k % 5 else rng.choice(GRID + EXTRA_GRID)
@@ -122,7 +122,7 @@ def rand_kv(rng):
 
 def gen_kvs(ctx):
     rng = ctx.rng
-    N = 6000 if ctx.tier == 'thorough' else 480
+    N = 3000 if ctx.tier == 'thorough' else 480
     cases = []
     for k in range(N):
         p, kv = rand_kv(rng)
@@ -226,11 +226,11 @@ def check_sweep_row(p, a, b, n, mult, row):
     return None
 
 
-def check_kv_property(c, r):
-    """Returns (signature-part, text) or None."""
+def _kv_failures(c, r):
+    """Yields (signature-part, text) for every conjunct that fails on this case."""
     for k, v in r.items():
         if isinstance(v, dict) and 'err' in v:
-            return ('raises-%s:%s' % (v['err'], k), '%s raised %s: %s' % (k, v['err'], v.get('msg')))
+            yield ('raises-%s:%s' % (v['err'], k), '%s raised %s: %s' % (k, v['err'], v.get('msg')))
     p = c['p']
     kv = [F(h) for h in c['kv']]
     L = len(kv)
@@ -246,28 +246,28 @@ def check_kv_property(c, r):
         else:
             exp = [nonempty[-1]]
         if [s] != exp or s2 != s or fa != s - p or not (p <= s < L - p - 1):
-            return ('findspan', 'findspan(%s)=%d (array version %d, first_active_at %d), the non-empty span containing it is %s' % (
+            yield ('findspan', 'findspan(%s)=%d (array version %d, first_active_at %d), the non-empty span containing it is %s' % (
                 float(u), s, s2, fa, exp))
     # mesh and index maps
     rm = [F(h) for h in r['mesh']]
     if rm != mesh or r['numspans'] != len(mesh) - 1 or r['numdofs'] != nd or r['numknots'] != L:
-        return ('mesh', 'mesh/numspans/numdofs/numknots inconsistent')
+        yield ('mesh', 'mesh/numspans/numdofs/numknots inconsistent')
     k2m = r['k2m']
     if len(k2m) != L or any(not (0 <= k2m[i] < len(mesh)) or mesh[k2m[i]] != kv[i] for i in range(L)):
-        return ('knots_to_mesh', 'mesh[knots_to_mesh[i]] != kv[i]')
+        yield ('knots_to_mesh', 'mesh[knots_to_mesh[i]] != kv[i]')
     if len(r['msia']) != nd or r['msia'] != r['msi1']:
-        return ('mesh_support_idx_all', 'mesh_support_idx_all differs from mesh_support_idx per function')
+        yield ('mesh_support_idx_all', 'mesh_support_idx_all differs from mesh_support_idx per function')
     for j in range(nd):
         lo, hi = r['msia'][j]
         sj = [F(h) for h in r['support'][j]]
         if sj != [kv[j], kv[j + p + 1]] or [mesh[lo], mesh[hi]] != sj:
-            return ('support', 'support(%d) and mesh[mesh_support_idx(%d)] disagree' % (j, j))
+            yield ('support', 'support(%d) and mesh[mesh_support_idx(%d)] disagree' % (j, j))
     if [F(h) for h in r['support_all']] != [kv[0], kv[-1]]:
-        return ('support', 'support() is not (kv[0], kv[-1])')
+        yield ('support', 'support() is not (kv[0], kv[-1])')
     if r['span_idx'] != nonempty or len(r['span_idx']) != r['numspans']:
-        return ('mesh_span_indices', 'mesh_span_indices is not the list of non-empty spans')
+        yield ('mesh_span_indices', 'mesh_span_indices is not the list of non-empty spans')
     if any(s not in r['span_idx'] for s in r['findspan']):
-        return ('mesh_span_indices', 'findspan result not listed in mesh_span_indices')
+        yield ('mesh_span_indices', 'findspan result not listed in mesh_span_indices')
     # Greville
     g = [F(h) for h in r['greville']]
     gb = 2 * (p + 2) * EPS * M
@@ -276,50 +276,77 @@ def check_kv_property(c, r):
     else:
         exp = [sum(kv[i + 1:i + p + 1]) / p for i in range(nd)]
     if len(g) != len(exp) or any(not (kv[0] <= x <= kv[-1]) for x in g):
-        return ('greville', 'Greville points: wrong count or outside the domain')
+        yield ('greville', 'Greville points: wrong count or outside the domain')
     if any(abs(x - e) > gb for x, e in zip(g, exp)):
-        return ('greville', 'Greville point is not the knot average (beyond the rounding bound)')
+        yield ('greville', 'Greville point is not the knot average (beyond the rounding bound)')
     if p >= 1 and any(not (kv[i] - gb <= g[i] <= kv[i + p + 1] + gb) for i in range(nd)):
-        return ('greville', 'Greville point outside the support of its B-spline')
+        yield ('greville', 'Greville point outside the support of its B-spline')
     if abs(F(r['meshsize_avg']) - abs(kv[-1] - kv[0]) / (len(mesh) - 1)) > 4 * EPS * 2 * M:
-        return ('meshsize_avg', 'meshsize_avg is not |support|/numspans')
+        yield ('meshsize_avg', 'meshsize_avg is not |support|/numspans')
     # refinement
     new = [F(h) for h in c['new_knots']]
     if [F(h) for h in r['refined']] != sorted(kv + new):
-        return ('refine', 'refine(new_knots) is not the sorted union')
+        yield ('refine', 'refine(new_knots) is not the sorted union')
     ur = [F(h) for h in r['urefined']]
     mids = [(mesh[i] + mesh[i + 1]) / 2 for i in range(len(mesh) - 1)]
     exp = sorted(kv + mids)
     if r['urefined_p'] != p or len(ur) != len(exp) or any(abs(x - e) > 2 * EPS * M for x, e in zip(ur, exp)) \
             or any(ur[i] > ur[i + 1] for i in range(len(ur) - 1)):
-        return ('refine-uniform', 'uniform refinement is not kv + span midpoints')
+        yield ('refine-uniform', 'uniform refinement is not kv + span midpoints')
     um = sorted(set(ur))
     if all(mesh[i + 1] - mesh[i] >= 4 * Fraction(ulp(float(M))) for i in range(len(mesh) - 1)):
         if len(um) != 2 * len(mesh) - 1 or um[::2] != mesh:
-            return ('refine-uniform', 'uniform refinement does not halve every span')
+            yield ('refine-uniform', 'uniform refinement does not halve every span')
     # equality
     if r['eq_self'] != [True, True, True]:
-        return ('eq-refl', 'kv == kv is False')
+        yield ('eq-refl', 'kv == kv is False')
     for o, (e1, e2) in zip(c['others'], r['eq']):
         if e1 != e2:
-            return ('eq-sym', 'a == b is %s but b == a is %s' % (e1, e2))
+            yield ('eq-sym', 'a == b is %s but b == a is %s' % (e1, e2))
     # derivative
     if 'derivative' in r:
         d = r['derivative']
         co = [F(h) for h in c['coeffs']]
         if d['p'] != p - 1 or [F(h) for h in d['kv']] != kv[1:-1]:
-            return ('derivative', 'derivative spline has the wrong knot vector/degree')
+            yield ('derivative', 'derivative spline has the wrong knot vector/degree')
         exp = [p * (co[i + 1] - co[i]) / (kv[i + p + 1] - kv[i + 1]) for i in range(nd - 1)]
         dc = [F(h) for h in d['coeffs']]
         if len(dc) != len(exp) or any(abs(x - e) > 8 * EPS * abs(e) for x, e in zip(dc, exp)):
-            return ('derivative', 'derivative coefficients are not p (c[i+1]-c[i]) / (t[i+p+1]-t[i+1])')
+            yield ('derivative', 'derivative coefficients are not p (c[i+1]-c[i]) / (t[i+p+1]-t[i+1])')
         # derivative as a spline vs pointwise derivative (both float evaluations by splev):
         # the terms are bounded by p max|dc| ; allow 64 (p+1) eps of that scale
         scale = max([abs(e) for e in exp] + [Fraction(1, 10 ** 300)])
         for x1, x2 in zip(d['dev'], d['sdev']):
             if abs(F(x1) - F(x2)) > 64 * (p + 1) * EPS * scale:
-                return ('derivative', 'derivative().eval differs from deriv() by %g' % float(abs(F(x1) - F(x2))))
-    return None
+                yield ('derivative', 'derivative().eval differs from deriv() by %g' % float(abs(F(x1) - F(x2))))
+    return
+
+
+
+def kv_failures(c, r):
+    """All failing conjuncts of one case; an exception of the oracle itself (non-finite or
+    malformed implementation output) is a failure of its own unless something was found before."""
+    out = []
+    for k, v in r.items():
+        vals = v if isinstance(v, list) else [v]
+        flat = [x for y in vals for x in (y if isinstance(y, list) else [y])]
+        if any(isinstance(x, str) and x.lstrip('-') in ('inf', 'nan') for x in flat):
+            out.append(('nonfinite:%s' % k, '%s returned a non-finite value' % k))
+    d = r.get('derivative')
+    if isinstance(d, dict) and any(x.lstrip('-') in ('inf', 'nan') for x in d.get('coeffs', []) + d.get('dev', [])):
+        out.append(('nonfinite:derivative', 'Spline.derivative produced a non-finite value'))
+    try:
+        for f in _kv_failures(c, r):
+            out.append(f)
+    except Exception as e:  # noqa
+        if not out:
+            out.append(('malformed-output', 'implementation output could not be evaluated: %r' % (e,)))
+    return out
+
+
+def check_kv_property(c, r):
+    f = kv_failures(c, r)
+    return f[0] if f else None
 
 
 # ---------------------------------------------------------------------------
@@ -513,9 +540,10 @@ def run(ctx):
             ctx.report('impl:KnotVector:raises-%s' % r.get('status'), 'valid knot vector rejected: %s' % r.get('msg'),
                        {'p': c['p'], 'kv': c['kv']})
             continue
-        bad = check_kv_property(c, r)
-        if bad:
+        fails = kv_failures(c, r)
+        if fails:
             nfail += 1
+        for bad in fails:
             ctx.report('impl:%s' % bad[0], bad[1], {'p': c['p'], 'kv': [float.fromhex(h) for h in c['kv']], 'kv_hex': c['kv'],
                                                     'case': {k: v for k, v in c.items() if k != 'kv'},
                                                     'impl': r})
@@ -562,11 +590,27 @@ def run(ctx):
     okkv = [(k, c, r) for k, (c, r) in enumerate(zip(kvs, kv_res))
             if r.get('status') == 'Ok' and not any(isinstance(v, dict) and 'err' in v for k2, v in r.items() if k2 != 'derivative')
             and not (isinstance(r.get('derivative'), dict) and 'err' in r['derivative'])]
+    def finite_case(c, r):
+        try:
+            coq_kv_case(c, r)
+            return True
+        except (OverflowError, ValueError):
+            return False
+    nskip = len(okkv)
+    okkv = [t for t in okkv if finite_case(t[1], t[2])]
+    ctx.cov['cases_with_nonfinite_output_not_compared'] = nskip - len(okkv)
     for n, i in enumerate(range(0, len(okkv), 60)):
         ch = okkv[i:i + 60]
         body = KV_HEADER + 'Definition cases := [\n' + ';\n'.join(coq_kv_case(c, r) for (_, c, r) in ch) + '].\n'
         body += 'Eval vm_compute in bad_components 0 cases.\n'
         files.append(('C19_kv_%03d' % n, body, ('kv', ch)))
+    # the binary64 model on the intervals swept on the implementation in THIS run (computed check,
+    # the same NpF.bp_ok as in make_knots_float_bounded_2000, n = 1..2000)
+    for n, i in enumerate(range(0, len(grid), 3)):
+        ch = grid[i:i + 3]
+        body = MK_HEADER + 'Definition ivs := %s.\n' % clist(['(%s, %s)' % (cf(a), cf(b)) for a, b in ch]) + \
+            'Eval vm_compute in bad_cases (fun ab => grid_check 2000 [ab]) 0 ivs.\n'
+        files.append(('C19_grid_%03d' % n, body, ('grid', ch)))
     # malformed stream: the model rejects what the constructor rejects
     body = KV_HEADER + 'From Verif.C19 Require Import Model.\nDefinition cases := %s.\n' % clist(
         [clist(c['kv'], qh) for c in badkvs]) + \
@@ -610,6 +654,15 @@ def run(ctx):
                     ': ' + bad[1] if bad else ' (no violation of the property found on this input)'),
                     {'p': c['p'], 'kv': [float.fromhex(h) for h in c['kv']], 'kv_hex': c['kv'], 'component': comp,
                      'case': {kk: v for kk, v in c.items() if kk != 'kv'}, 'impl': r}, found_input=bool(bad))
+        elif kind == 'grid':
+            for b in lst:
+                ndis += 1
+                a, bb = chunk[b]
+                ctx.broken.append('binary64 model of make_knots on [%r, %r]: some n <= 2000 fails the computed check bp_ok' % (a, bb))
+                if (a, bb) not in sweep_bad:
+                    ctx.report('tie:make_knots:model-interval', 'the binary64 model fails on [%r,%r] for some n <= 2000 while the '
+                               'implementation passed the sweep' % (a, bb), {'a': a, 'b': bb, 'a_hex': fhex(a), 'b_hex': fhex(bb)},
+                               found_input=False)
         elif kind == 'bad':
             for b in lst:
                 ndis += 1
